@@ -187,7 +187,7 @@ def _explore_subtree(space, prefix, k, deadline, st, want_samples=0):
             st.nontrivial.add(d)
         if case.fails:
             st.nfail += 1
-            if len(st.fails) < MAX_FAILS_PER_TASK:
+            if len(st.fails) < (4000 if getattr(space, 'report_all', False) else MAX_FAILS_PER_TASK):
                 f = case.fails[0]
                 st.fails.append((ch.choices(), list(ch.labels), f[0], _short(f[1]), _short(f[2])))
         if want_samples and len(st.samples) < want_samples and case.sample is not None:
@@ -283,7 +283,7 @@ def _frontier(space, k, target, cap=6000):
             if case.fails:
                 st.nfail += 1
                 f = case.fails[0]
-                if len(st.fails) < 4 * MAX_FAILS_PER_TASK:
+                if len(st.fails) < (4000 if getattr(space, 'report_all', False) else 4 * MAX_FAILS_PER_TASK):
                     st.fails.append((ch.choices(), list(ch.labels), f[0], _short(f[1]), _short(f[2])))
             if case.sample is not None and len(st.samples) < 1:
                 st.samples.append({'choices': ch.labels or ['(all defaults)'], 'case': case.sample})
